@@ -1,13 +1,17 @@
 """C07 - gate modifiers (dagger, controlled, power, exp) mean what they say."""
+import decimal
 import itertools
 import math
+from fractions import Fraction
 
 import numpy as np
 import sympy
 
 from ..core import Exhausted
 from ..gen import circuits as GC
+from ..gen import exponents as GE
 from ..gen import nonunitary as NU
+from ..ref import exactmat as EX
 from ..ref import linalg as L
 
 ID = "C07"
@@ -24,7 +28,18 @@ RULE = (
     "chains, 60 % of them forced to hold both a dagger and a (mostly negative) integer power (adjoint = inverse only for "
     "unitaries); a case is non-trivial when its chain has >= 2 modifiers of two different kinds; "
     "distinct = distinct canonical case strings. exp of T, of >= 3-qubit gates and of exp are excluded "
-    "(non-terminating sympy calls)"
+    "(non-terminating sympy calls); plus class 'spelled': the same chains with the numbers handed to power / controlled "
+    "(and, one case in five, to the base gate) spelled as fractions.Fraction, sympy Rational / Integer / Float, "
+    "decimal.Decimal and numpy signed / unsigned integers of several widths instead of int / float, every ordered "
+    "modifier pair with a power in it forced in turn, over built-in, custom and non-unitary bases; plus class 'bigpow': "
+    "integer exponents around 2**7/8/15/16, 10**4/5/6, 2**31/32/53/63/64 and beyond (10**20, 2**100, random 54-90 bit "
+    "numbers), both signs and parities, alone or under / above dagger, controlled, inverse or a second large power, on "
+    "gates with exact Gaussian-rational matrices of bounded or polynomially growing powers (built-ins, phase "
+    "permutations, unipotent, unit-eigenvalue Jordan blocks, block sums, unit diagonals), medium exponents also on "
+    "exact rational rotations and hermitian non-involutions, exponents up to 10**6 on float unitaries; 4 and 5 "
+    "controls at once; in 'spelled' (every third case), 'bigpow' (every second) the chain is followed on the SAME gate "
+    "object by the chain with one number changed to a neighbour (n +- 1, another q) and by the first chain again; the "
+    "replace_params cases also take spelled numbers and exact parameters (Fraction, sympy numbers, multiples of pi)"
 )
 ASSUMPTIONS = [
     "the base gate's own matrix is taken as given (C02); every modifier step is judged against a numpy/scipy "
@@ -33,13 +48,26 @@ ASSUMPTIONS = [
     "tolerance 1e-8 relative to the largest entry (sympy float linear algebra), 1e-6 for q-th powers of roots",
     "exceptions raised inside sympy's own matrix power / exponential are loud, not silently wrong: such "
     "steps are counted as out-of-domain, the chain is cut there",
+    "an integer power with |e| > 3 of a matrix whose entries are Gaussian rationals is judged in exact arithmetic "
+    "(rv.ref.exactmat, binary exponentiation on Fractions): an exact result must equal it, a floating point result "
+    "agree to 1e-8; other matrices are judged against numpy up to |e| = 16, unitary ones up to |e| = 2**20, beyond "
+    "that not at all (a floating point reference of U^e loses |e| * 1e-16)",
+    "an integer exponent beyond 2**20 held in a floating point type (float, sympy.Float, Decimal) is not judged: "
+    "sympy evaluates lambda**e at 15 digits, the phase is lost to |e| * 1e-16 (observed: [[0,-1],[-i,0]].power("
+    "float(2**53 - 1)) is off by 0.38); exactness at any size is demanded of integer types only (int, numpy "
+    "integers, sympy.Integer, Fraction)",
+    "a root of a matrix with floating point entries and two eigenvalues closer than 1e-5 that does not power back is "
+    "not judged (divided difference of nearly equal numbers, e.g. diagonal entries -2/3 exact and float(-2/3)); "
+    "matrices with exact entries are always judged",
+    "numpy floats as exponents and numpy numbers as gate parameters are not generated (sympy 1.9 x numpy 2)",
 ]
 DECIDING = ["step:dagger", "step:controlled", "step:power_int", "step:power_frac", "step:exp",
-            "hook:dagger", "hook:controlled", "hook:power", "hook:exp", "replace-params", "num_qubits", "params"]
+            "hook:dagger", "hook:controlled", "hook:power", "hook:exp", "replace-params", "num_qubits", "params",
+            "spelled-exponent", "power-exact", "power-beyond-2^53"]
 EXHAUSTIVE = {"k7_targets": "the listed witnesses of known finding K7", "pairs_exh": "all 81 ordered pairs of the modifiers {dagger, controlled(1), controlled(2), "
                            "power(-1), power(0), power(2), power(1/2), power(1/3), exp} on each base gate of a fixed list "
                            "(3 base gates quick / 8 thorough)"}
-BUDGET = {"quick": (4, 30, 110), "thorough": (16, 220, 100000)}
+BUDGET = {"quick": (4, 34, 134), "thorough": (16, 220, 100000)}
 CASE_TIMEOUT = {"quick": 12, "thorough": 40}
 K1 = "K1-dagger-of-fractional-power"
 K7 = "K7-fractional-power-of-unevaluated-root"
@@ -48,7 +76,7 @@ TOL = 1e-8
 
 def classes(tier):
     return ["builtin", "custom", "custom_structured", "nonunitary", "siblings", "symbolic", "replace", "k1_targets",
-            "k7_targets", "pairs_exh"]
+            "spelled", "bigpow", "k7_targets", "pairs_exh"]
 
 
 # ----------------------------------------------------------------------------- reference
@@ -56,24 +84,58 @@ def _tol(ref):
     return TOL * max(1.0, float(np.abs(ref).max()) if ref.size else 1.0)
 
 
-def _frac_q(e):
-    """q if e == 1/q for an integer q >= 2 (within float rounding), else None"""
-    if isinstance(e, (int, np.integer)) or e == 0:
-        return None
+def _norm_exp(e):
+    """exact value (Fraction) of a real number given in any spelling - Python int / float, numpy integer / float,
+    fractions.Fraction, decimal.Decimal, sympy Integer / Rational / Float - or None (bool, non-finite, anything
+    else: outside the quantifier)"""
     try:
-        q = round(1 / e)
+        if isinstance(e, (bool, np.bool_)):
+            return None
+        if isinstance(e, (int, np.integer)):
+            return Fraction(int(e))
+        if isinstance(e, (float, np.floating)):
+            return Fraction(float(e)) if math.isfinite(e) else None
+        if isinstance(e, Fraction):
+            return e
+        if isinstance(e, decimal.Decimal):
+            return Fraction(e) if e.is_finite() else None
+        if isinstance(e, sympy.Rational):
+            return Fraction(int(e.p), int(e.q))
+        if isinstance(e, sympy.Float):
+            f = float(e)
+            if not math.isfinite(f):
+                return None
+            return Fraction(f)
     except Exception:
         return None
-    if q >= 2 and abs(1 / q - e) < 1e-12:
+    return None
+
+
+def _norm_count(k):
+    """control count as a Python int, whatever integer type spelled it; None if it is not an integer >= 1"""
+    v = _norm_exp(k) if not isinstance(k, (float, np.floating, sympy.Float, decimal.Decimal)) else None
+    if v is None or v.denominator != 1 or v < 1:
+        return None
+    return int(v)
+
+
+def _frac_q(e):
+    """q if e == 1/q for an integer q >= 2 (within float rounding), else None"""
+    v = _norm_exp(e)
+    if v is None or v == 0 or v.denominator == 1:
+        return None
+    try:
+        q = round(1 / v)
+    except Exception:
+        return None
+    if q >= 2 and abs(Fraction(1, q) - v) < Fraction(1, 10**12):
         return q
     return None
 
 
 def _is_int(e):
-    try:
-        return float(e) == int(e)
-    except Exception:
-        return False
+    v = _norm_exp(e)
+    return v is not None and v.denominator == 1
 
 
 def _has_neg_real_eig(M):
@@ -113,9 +175,10 @@ def _k1_applies(prev_gate, M_prev, got):
         q = _frac_q(e)
         if q is None:
             # general non-integer exponent p: use the denominator of a small rational
-            from fractions import Fraction
-
-            q = Fraction(e).limit_denominator(16).denominator
+            v = _norm_exp(e)
+            if v is None:
+                return False
+            q = v.limit_denominator(16).denominator
         Q *= q
         try:
             if _has_neg_real_eig(GC.to_np(w.matrix)):
@@ -143,12 +206,119 @@ def _matrix_of(gate):
             raise hit[1]
         return hit[1]
     try:
-        M = GC.to_np(gate.matrix)
+        Ms = gate.matrix
+        M = GC.to_np(Ms)
     except Exception as e:
-        _MCACHE[id(gate)] = (gate, e)
+        _MCACHE[id(gate)] = (gate, e, None)
         raise
-    _MCACHE[id(gate)] = (gate, M)
+    _MCACHE[id(gate)] = (gate, M, Ms)
     return M
+
+
+def _exact_of(gate):
+    """((Re, Im), exact) of the matrix the gate reported (see rv.ref.exactmat.from_sympy) or None when its entries
+    are not Gaussian rationals; computed once per case from the matrix ``_matrix_of`` obtained"""
+    hit = _MCACHE.get(id(gate))
+    if hit is None or hit[0] is not gate:
+        try:
+            _matrix_of(gate)
+        except Exception:
+            return None
+        hit = _MCACHE.get(id(gate))
+    if hit[2] is None or isinstance(hit[1], Exception):
+        return None
+    if len(hit) == 3:
+        try:
+            ex = EX.from_sympy(hit[2])
+        except Exception:
+            ex = None
+        hit = hit + (ex,)
+        _MCACHE[id(gate)] = hit
+    return hit[3]
+
+
+def _frac_close(A, B, rel):
+    """exact matrices A, B agree entrywise within rel * max(1, largest |entry of B|) (all in exact arithmetic)"""
+    (ar, ai), (br, bi) = A, B
+    scale = max([Fraction(1)] + [abs(x) for part in (br, bi) for row in part for x in row])
+    tol = Fraction(rel) * scale
+    worst = Fraction(0)
+    for pa, pb in ((ar, br), (ai, bi)):
+        for ra, rb in zip(pa, pb):
+            for x, y in zip(ra, rb):
+                d = abs(Fraction(x) - Fraction(y))
+                if d > worst:
+                    worst = d
+    return worst <= tol, worst / scale
+
+
+def _root_ill_conditioned(prev_gate, M_prev):
+    """a matrix with floating point entries and two eigenvalues closer than 1e-5 (equal in exact arithmetic, apart by
+    rounding, e.g. one diagonal entry -2/3 exact and the other float(-2/3)): its root is a divided difference
+    (f(a) - f(b)) / (a - b) of nearly equal numbers, nothing can be demanded of it in floating point.  Matrices
+    with exact entries never qualify: nothing is rounded there"""
+    ex = _exact_of(prev_gate)
+    if ex is not None and ex[1]:
+        return False
+    try:
+        Ms = _MCACHE[id(prev_gate)][2]
+        if Ms is None or not Ms.has(sympy.Float):
+            return False
+        ev = np.linalg.eigvals(np.asarray(M_prev, dtype=complex))
+    except Exception:
+        return False
+    scale = max(1.0, float(np.abs(ev).max()))
+    return any(abs(ev[i] - ev[j]) < 1e-5 * scale for i in range(len(ev)) for j in range(i))
+
+
+FLOAT_REF_MAX_EXP = 2**20  # a floating point reference of U^e loses |e| * 1e-16: trusted up to here, for unitary U only
+
+
+def _int_power_verdict(prev_gate, M_prev, new_gate, got, e):
+    """judge new_gate.matrix against prev_gate.matrix ** e for an integer e of ANY size.
+    -> ("ok" | "ood" | "bad", text).  Exact Gaussian-rational matrices are judged in exact arithmetic (binary
+    exponentiation on Fractions; exact results must be equal, floating point results agree to TOL); other matrices
+    against numpy, which is only meaningful for moderate exponents"""
+    use_exact = abs(e) > 3
+    if not use_exact and e < 0:
+        with np.errstate(all="ignore"):
+            c = np.linalg.cond(M_prev)
+        use_exact = not np.isfinite(c) or c > 1e6  # e.g. the inverse of [[1, 2**64], [0, 1]]: exact or not at all
+    ex = _exact_of(prev_gate) if use_exact else None
+    if ex is not None:
+        try:
+            ref = EX.power(ex[0], e)
+        except ZeroDivisionError:
+            return "ood", "singular"
+        except EX.TooBig:
+            ref = None
+        if ref is not None:
+            gx = _exact_of(new_gate)
+            if gx is not None:
+                if ex[1] and gx[1]:
+                    same = EX.equal(gx[0], ref)
+                    return ("ok", "exact") if same else ("bad", "exact matrices differ: got "
+                                                         f"{EX.to_complex(gx[0])}, repeated product is {EX.to_complex(ref)}")
+                close, dev = _frac_close(gx[0], ref, TOL)
+                return ("ok", "exact-ref") if close else ("bad", f"relative deviation from the exact repeated product {float(dev):.3e}")
+            refc = np.array(EX.to_complex(ref), dtype=complex)
+            if not np.all(np.isfinite(refc)):
+                return "ood", "reference beyond floating point range"
+            d = L.maxdiff(got, refc)
+            return ("ok", "exact-ref") if d <= _tol(refc) else ("bad", f"max deviation from the exact repeated product {d:.3e}")
+    if abs(e) > 16 and (abs(e) > FLOAT_REF_MAX_EXP or not L.is_unitary(M_prev, 1e-9)):
+        return "ood", "no trustworthy floating point reference"
+    try:
+        ref = np.linalg.matrix_power(M_prev, e) if e >= 0 else np.linalg.matrix_power(np.linalg.inv(M_prev), -e)
+    except np.linalg.LinAlgError:
+        return "ood", "singular"
+    cond = np.linalg.cond(M_prev) if e < 0 else 1.0
+    if not np.isfinite(cond) or cond > 1e6 or not np.all(np.isfinite(ref)):
+        return "ood", "ill-conditioned"
+    d = L.maxdiff(got, ref)
+    if d > _tol(ref) * max(1.0, cond):
+        return "bad", f"max diff {d:.3e}"
+    return "ok", "float"
 
 
 def _k7_applies(prev_gate, M_prev, exponent, q):
@@ -189,6 +359,13 @@ def judge_step(mon, kind, arg, prev_gate, M_prev, new_gate, where):
         mon.violation(f"{kind}-matrix-raises", f"{prev_gate} -> {kind}{arg!r}: {e!r}")
         return None
     k = prev_gate.num_qubits
+    if kind == "controlled":
+        raw_arg, arg = arg, _norm_count(arg)
+        if arg is None:
+            mon.out_of_domain(name)
+            return None
+        if type(raw_arg) is not int:
+            mon.note("control-count-spelling:" + type(raw_arg).__name__)
     exp_nq = k + (arg if kind == "controlled" else 0)
     if new_gate.num_qubits != exp_nq:
         mon.violation("num_qubits", f"{prev_gate}.{kind}{arg!r} reports {new_gate.num_qubits} qubits, expected {exp_nq}")
@@ -221,33 +398,53 @@ def judge_step(mon, kind, arg, prev_gate, M_prev, new_gate, where):
             mon.violation("exp-matrix", f"({prev_gate}).exp: max|M - expm| = {L.maxdiff(got, ref):.3e}")
             return None
     elif kind in ("power_int", "power_frac", "power"):
-        if _is_int(arg):
-            e = int(arg)
-            try:
-                ref = np.linalg.matrix_power(M_prev, e) if e >= 0 else np.linalg.matrix_power(np.linalg.inv(M_prev), -e)
-            except np.linalg.LinAlgError:
+        v = _norm_exp(arg)
+        if v is None:
+            mon.out_of_domain(name)
+            return got
+        plain = type(arg) in (int, float)
+        if v.denominator == 1:
+            e = int(v)
+            if abs(e) > FLOAT_REF_MAX_EXP and isinstance(arg, (float, np.floating, sympy.Float, decimal.Decimal)):
+                # an exponent held in floating point is processed in floating point (sympy evaluates lambda**e at 15
+                # digits: the phase is lost to |e| * 1e-16); exactness at any size is demanded of integer types only
                 mon.out_of_domain(name)
+                mon.note("floating-point-exponent-beyond-2^20")
                 return None
-            cond = np.linalg.cond(M_prev) if e < 0 else 1.0
-            if not np.isfinite(cond) or cond > 1e6:
+            verdict, text = _int_power_verdict(prev_gate, M_prev, new_gate, got, e)
+            if verdict == "ood":
                 mon.out_of_domain(name)
+                mon.note("int-power-not-judged:" + text)
                 return None
-            if L.maxdiff(got, ref) > _tol(ref) * max(1.0, cond):
-                mon.violation("power-int-matrix", f"({prev_gate}).power({arg}): max diff {L.maxdiff(got, ref):.3e}")
+            if verdict == "bad":
+                mon.violation("power-int-matrix", f"({prev_gate}).power({arg!r}): {text}"[:1500])
                 return None
+            if text.startswith("exact"):
+                mon.ok("power-exact")
+            if abs(e) > 2**53:
+                mon.ok("power-beyond-2^53")
+            if abs(e) > 3:
+                mon.note(f"int-exponent-bits:{min(128, 8 * ((abs(e).bit_length() + 7) // 8))}{'-' if e < 0 else '+'}")
             name = f"{where}:power_int" if where == "step" else name
         else:
-            q = _frac_q(arg)
+            q = _frac_q(v)
             if q is None:
                 mon.out_of_domain(name)
                 return got
             back = np.linalg.matrix_power(got, q)
             if L.maxdiff(back, M_prev) > 1e-6 * max(1.0, float(np.abs(M_prev).max())):
                 known = K7 if _k7_applies(prev_gate, M_prev, arg, q) else None
-                mon.violation("power-frac-matrix", f"({prev_gate}).power(1/{q}): max|R^{q} - M| = {L.maxdiff(back, M_prev):.3e}",
+                if known is None and _root_ill_conditioned(prev_gate, M_prev):
+                    mon.out_of_domain(name)
+                    mon.note("ill-conditioned-root-of-float-matrix")
+                    return None
+                mon.violation("power-frac-matrix", f"({prev_gate}).power({arg!r}) [= 1/{q}]: max|R^{q} - M| = {L.maxdiff(back, M_prev):.3e}",
                               known=known)
                 return None
             name = f"{where}:power_frac" if where == "step" else name
+        if not plain:
+            mon.ok("spelled-exponent")
+            mon.note("exponent-spelling:" + type(arg).__name__)
     mon.ok(name)
     return got
 
@@ -274,10 +471,10 @@ def _mk_modifier_hook(kind):
         arg = None
         if kind in ("controlled", "power"):
             arg = call.args[1] if len(call.args) > 1 else next(iter(call.kwargs.values()), None)
-            if kind == "controlled" and (not isinstance(arg, (int, np.integer)) or arg < 1 or g.num_qubits + arg > 6):
+            if kind == "controlled" and (_norm_count(arg) is None or g.num_qubits + _norm_count(arg) > 6):
                 mon.out_of_domain(name)
                 return
-            if kind == "power" and not isinstance(arg, (int, float, np.integer, np.floating)):
+            if kind == "power" and _norm_exp(arg) is None:
                 mon.out_of_domain(name)
                 return
         if call.exc is not None:
@@ -428,7 +625,68 @@ def _nu_chain(rng, base_nq, max_width, max_len, info):
 
 
 def _chain_str(chain):
-    return ".".join(m[0] + (f"[{m[1]:.6g}]" if len(m) > 1 else "") for m in chain)
+    """modifiers with their arguments; an argument in a spelling other than plain int / float carries its label
+    (third element of the modifier tuple, see _respell)"""
+    out = []
+    for m in chain:
+        if len(m) > 2:
+            out.append(f"{m[0]}[{m[2]}]")
+        elif len(m) > 1:
+            out.append(f"{m[0]}[{m[1]}]" if isinstance(m[1], int) and abs(m[1]) >= 10**6 else f"{m[0]}[{m[1]:.6g}]")
+        else:
+            out.append(m[0])
+    return ".".join(out)
+
+
+def _respell(rng, chain, p=0.75):
+    """the same chain with the numbers given to power / controlled spelled in other types (rv.gen.exponents): equal
+    values, so equal gates.  At least one argument is respelled when the chain has one"""
+    idx = [i for i, m in enumerate(chain) if len(m) > 1]
+    if not idx:
+        return list(chain)
+    must = rng.choice(idx)
+    out = []
+    for i, m in enumerate(chain):
+        if len(m) == 1 or (i != must and rng.random() > p):
+            out.append(m)
+            continue
+        if m[0] == "controlled":
+            kinds = [k for k in GE.fitting_int_spellings(m[1], GE.COUNT_SPELLINGS) if k != "int" or i != must]
+            obj, label = GE.spell_count(rng, m[1], rng.choice(kinds))
+        elif m[0] == "power_frac":
+            kinds = [k for k in GE.FRAC_SPELLINGS if k != "float" or i != must]
+            obj, label = GE.spell_unit_fraction(rng, round(1 / m[1]), rng.choice(kinds))
+        else:
+            kinds = [k for k in GE.fitting_int_spellings(m[1]) if k != "int" or i != must]
+            obj, label = GE.spell_integer(rng, m[1], rng.choice(kinds))
+        out.append((m[0], obj, label))
+    return out
+
+
+def _neighbour_chain(rng, chain):
+    """the same chain with ONE number changed to a near-by value (an integer exponent by +-1, a unit fraction to another
+    q, a control count by +-1 within 1..2 extra): run after the original on the same gate object, and the original
+    again after it, anything remembered per gate / per coarse key (float(e), int(e), round(e), e % 2**k, type) goes stale"""
+    idx = [i for i, m in enumerate(chain) if m[0] in ("power_int", "power_frac")] or [i for i, m in enumerate(chain) if len(m) > 1]
+    if not idx:
+        return None
+    i = rng.choice(idx)
+    m = chain[i]
+    v = _norm_exp(m[1])
+    if v is None:
+        return None
+    if m[0] == "power_frac":
+        q = round(1 / v)
+        obj, label = GE.spell_unit_fraction(rng, rng.choice([x for x in (2, 3, 4) if x != q]))
+    elif m[0] == "power_int":
+        n = int(v)
+        n2 = n + rng.choice([-1, 1]) if abs(n) > 3 else rng.choice([x for x in (-3, -2, -1, 0, 1, 2, 3) if x != n and (x < 0) == (n < 0)] or [n + 1])
+        kinds = GE.fitting_int_spellings(n2)
+        obj, label = GE.spell_integer(rng, n2, "int" if rng.random() < 0.5 else rng.choice(kinds))
+    else:
+        k = int(v)
+        obj, label = GE.spell_count(rng, 1 if k > 1 else 2)
+    return list(chain[:i]) + [(m[0], obj, label)] + list(chain[i + 1:])
 
 
 def _nontrivial(chain):
@@ -603,6 +861,113 @@ def run_case(ctx):
         ctx.describe(f"symbolic {d}.{_chain_str(chain)} at {sorted((str(k), v) for k, v in a.items())}", _nontrivial(chain))
         _run_chain(ctx, g, d, chain, assignment=a)
         return
+    if cls == "spelled":
+        # the NUMBER handed to power / controlled (and, one case in five, to the base gate) in every type a caller may
+        # hold it in: the same value must give the same gate whether it is a float, a Fraction, a sympy Rational /
+        # Integer / Float, a Decimal or a numpy integer.  Every (modifier, modifier) pair with a power in it is
+        # forced in turn, so each re-association rule that rebuilds a Power / ControlledGate sees such numbers
+        route = ["builtin", "custom", "builtin", "nonunitary", "exact_param"][ctx.index % 5]
+        pairs = [(a, b) for a in all_mods for b in all_mods
+                 if (a.startswith("power") or b.startswith("power")) and not (a == "exp" and b in ("exp", "power_frac"))]
+        focus = pairs[(ctx.index // 5) % len(pairs)]
+        if route == "nonunitary":
+            nq = rng.choice([1, 1, 2])
+            g, d, info = NU.nonunitary_gate(rng, nprng, nq, f"SpNU{ctx.index}")
+            chain = _nu_chain(rng, nq, max_width, max_len, info)
+        elif route == "custom":
+            nq = rng.choice([1, 1, 2])
+            g, d = GC.numeric_custom_def(rng, nprng, nq, f"SpCust{ctx.index}")(), f"custom{nq}q#{ctx.index}"
+            chain = _rand_chain(rng, nq, max_width, max_len, all_mods, dense=True, focus=focus)
+        elif route == "exact_param":
+            # parameters in exact spellings leave unevaluated cos(1/6), exp(I*pi/7) ... in the matrix: no Jordan forms
+            # (nor inverses: RH and U3 are left out, negative exponents are mirrored)
+            pn = sorted(n for n, e in tab.items() if e["kind"] == "param" and n not in ("U3", "RH") and e["nq"] <= 2)
+            name = pn[(ctx.index // 5) % len(pn)]
+            sp = [GE.spell_param(rng) for _ in range(tab[name]["nparams"])]
+            g, d = tab[name]["ref"](*[o for o, _ in sp]), f"{name}({', '.join(l for _, l in sp)})"
+            f2 = tuple("power_int" if k in ("power_frac", "exp") else k for k in focus)
+            chain = _rand_chain(rng, g.num_qubits, max_width, max_len, ["dagger", "controlled", "power_int"], focus=f2)
+            chain = [("power_int", abs(m[1])) if m[0] == "power_int" else m for m in chain]
+            ctx.mon.note("exact-parameter-spelling")
+        else:
+            names = sorted(tab)
+            name = names[(ctx.index // 5) % len(names)] if rng.random() < 0.7 else rng.choice(names)
+            allow = [m for m in all_mods if not (m == "exp" and name in NO_EXP)]
+            if "exp" in focus and name in NO_EXP:
+                focus = ("power_frac", "dagger")
+            g, d = GC.rand_builtin(rng, max_nq=2, names=[name], special=0.0)
+            chain = _rand_chain(rng, g.num_qubits, max_width, max_len, allow, cheap=name in CHEAP,
+                                max_jordan_width=1 if name == "U3" else 4, focus=focus)
+        if not any(len(m) > 1 for m in chain):
+            chain.append(("power_int", rng.choice([-2, -1, 2, 3])))
+        chain = _respell(rng, chain)
+        other = _neighbour_chain(rng, chain) if ctx.index % 3 == 0 else None
+        if other is not None and sum(m[1] for m in other if m[0] == "controlled") > sum(m[1] for m in chain if m[0] == "controlled"):
+            other = None  # never wider than the cost model allowed
+        ctx.describe(f"spelled {d}.{_chain_str(chain)}" + (f" | then .{_chain_str(other)} | then the first again" if other else ""),
+                     _nontrivial(chain))
+        _run_chain(ctx, g, d, chain)
+        if other is not None:
+            ctx.mon.note("history-of-neighbouring-numbers")
+            _run_chain(ctx, g, d, other)
+            _run_chain(ctx, g, d, chain)
+        return
+    if cls == "bigpow":
+        # integer exponents of every size (the property says "all integer exponents"): around the sizes where integer
+        # types, doubles and sympy's choice of algorithm change (rv.gen.exponents.big_integer), both signs and parities.
+        # Two cases in three use gates with exact Gaussian-rational matrices of bounded / polynomially growing powers,
+        # judged in exact arithmetic at any exponent; one in three float unitaries at exponents up to 2**20
+        if ctx.index % 8 == 7:
+            # sizes of the other integer a modifier takes: 4 and 5 controls at once (32x32, 64x64), also reached in steps
+            g, d = GC.rand_builtin(rng, max_nq=1, special=0.3)
+            k = rng.choice([4, 5])
+            split = rng.random() < 0.4
+            chain = [("controlled", k - 2), ("controlled", 2)] if split else [("controlled", k)]
+            if rng.random() < 0.6:
+                chain.insert(rng.randint(0, len(chain)), rng.choice([("dagger",), ("power_int", rng.choice([-1, 2]))]))
+            if rng.random() < 0.4:
+                chain = _respell(rng, chain, p=0.5)
+            ctx.describe(f"bigpow[wide-controls] {d}.{_chain_str(chain)}", len(chain) >= 2)
+            ctx.mon.note("bigpow-band:wide-controls")
+            _run_chain(ctx, g, d, chain)
+            return
+        if ctx.index % 3 != 2:
+            flavor = GE.EXACT_FLAVORS[(ctx.index // 3) % len(GE.EXACT_FLAVORS)] if rng.random() < 0.8 else rng.choice(GE.EXACT_FLAVORS)
+            # matrices whose powers grow exponentially: one qubit (sympy's exact products of 4x4 ones take seconds)
+            nq = rng.choice([1, 1, 2]) if flavor in GE.ANY_EXPONENT else 1
+            g, d, flavor = GE.exact_gate(rng, nq, f"Ex{ctx.index}", flavor)
+            n, band = GE.big_integer(rng, None if flavor in GE.ANY_EXPONENT else "medium")
+        else:
+            flavor = "float-unitary"
+            # (RH, U3 and dense two-qubit matrices take sympy seconds per large power: left to the small exponents)
+            name = rng.choice(["RX", "RY", "RZ", "PHASE", "GPi", "GPi2", "XX", "YY", "XY", "CPHASE", "H", "T", "custom"])
+            if name == "custom":
+                nq = 1
+                g, d = GC.numeric_custom_def(rng, nprng, nq, f"BigCust{ctx.index}")(), f"custom{nq}q#{ctx.index}"
+            else:
+                g, d = GC.rand_builtin(rng, max_nq=2, names=[name], special=0.0)
+            n, band = GE.big_integer(rng, rng.choice(["medium", "threshold", "threshold"]))
+        any_exp = flavor in GE.ANY_EXPONENT
+        pre = rng.choice([[], [], [], [("dagger",)], [("controlled", 1)], [("power_int", -1)], [("dagger",), ("controlled", 1)]])
+        posts = [[], [], [("dagger",)], [("controlled", 1)], [("dagger",), ("controlled", 1)], [("power_int", -1)]]
+        if any_exp:
+            posts.append([("power_int", GE.big_integer(rng)[0])])
+        post = rng.choice(posts)
+        if g.num_qubits + sum(m[1] for m in pre + post if m[0] == "controlled") > 3:
+            post = [m for m in post if m[0] != "controlled"]
+        chain = pre + [("power_int", n)] + post
+        if rng.random() < 0.45:
+            chain = _respell(rng, chain, p=0.5)
+        other = _neighbour_chain(rng, [m for m in chain]) if ctx.index % 2 == 0 else None
+        ctx.describe(f"bigpow[{flavor}/{band}] {d}.{_chain_str(chain)}" + (f" | then .{_chain_str(other)} | then the first again" if other else ""), True)
+        ctx.mon.note("bigpow-band:" + band)
+        ctx.mon.note("bigpow-flavor:" + flavor)
+        _run_chain(ctx, g, d, chain)
+        if other is not None:
+            ctx.mon.note("history-of-neighbouring-numbers")
+            _run_chain(ctx, g, d, other)
+            _run_chain(ctx, g, d, chain)
+        return
     if cls == "replace":
         # replace_params commutes with modifying
         pnames = sorted(n for n, e in tab.items() if e["kind"] == "param" and n != "U3")
@@ -616,11 +981,27 @@ def run_case(ctx):
             npar = tab[name]["nparams"]
         p1 = tuple(GC.rand_angle(rng, 0.0) for _ in range(npar))
         p2 = tuple(GC.rand_angle(rng, 0.0) for _ in range(npar))
+        # one case in four: the old and / or the new parameters in exact spellings (Fraction, sympy numbers)
+        exact_params = name not in ("custom", "RH") and ctx.index % 4 == 3
+        if exact_params:
+            p2 = tuple(GE.spell_param(rng)[0] for _ in range(npar))
+            if rng.random() < 0.5:
+                p1 = tuple(GE.spell_param(rng)[0] for _ in range(npar))
         g1, g2 = factory(*p1), factory(*p2)
         allow = ["dagger", "controlled", "power_int", "power_frac"] + (
             ["exp"] if g1.num_qubits == 1 and name not in NO_EXP and name != "custom" else [])
+        if exact_params:
+            allow = ["dagger", "controlled", "power_int"]  # unevaluated cos(1/6) ...: no Jordan forms
         chain = _rand_chain(rng, g1.num_qubits, max_width, max_len, allow, cheap=name in CHEAP,
                             dense=(name == "custom"))
+        if exact_params:
+            chain = [("power_int", abs(m[1])) if m[0] == "power_int" else m for m in chain]  # symbolic inverses are slow
+        if ctx.index % 2 == 1:
+            # the numbers given to the modifiers in other types: replace_params rebuilds every wrapper from them
+            if not any(len(m) > 1 for m in chain):
+                chain.append(("power_int", rng.choice([-2, -1, 2, 3])) if exact_params or rng.random() < 0.5
+                             else ("power_frac", 1 / rng.choice([2, 3, 4])))
+            chain = _respell(rng, chain)
         ctx.describe(f"replace {name}{p1}->{p2}.{_chain_str(chain)}", _nontrivial(chain))
         a, b = g1, g2
         for m in chain:
